@@ -73,6 +73,8 @@ def kinds_of_ctx(ctx, al=None):
 
 
 def pat_head(p):
+    if p['k'] == 'TupleStruct' and p['elems'] and all(e['k'] == 'Lit' for e in p['elems']):
+        return pat_s(p).replace(' ', '')     # `Bool(true)`: the literal is part of the case
     if p['k'] in ('TupleStruct', 'Struct', 'Path'):
         return p['path']['s']
     if p['k'] == 'Ref':
